@@ -1423,7 +1423,10 @@ func (r *runningStep) closedEarly(stageToMarkUnresolvable StageID, priorStageFai
 	} else {
 		r.transitionRunningStage(StageIDClosed)
 	}
-	closedOutput := any(map[any]any{"cancelled": r.cancelled, "close_requested": r.closed.Load()})
+	r.lock.Lock()
+	cancelled := r.cancelled
+	r.lock.Unlock()
+	closedOutput := any(map[any]any{"cancelled": cancelled, "close_requested": r.closed.Load()})
 
 	r.completeStep(
 		StageIDClosed,
